@@ -1,7 +1,8 @@
 (* Jacobian.v — executable model of ComputeGraph.get_jacobian_func (pyrates/backend/computegraph.py:547-763,
    _get_symbolic_rhs 765-829, _extract_past_terms 973-996, _resolve_derivatives 998-1038) for models with scalar
    state variables (vectorize=False), and the specification "J is the derivative of the vector field".
-   Definitions only; proofs are in JacobianProofs.v (algebra, any commutative ring) and JacobianReal.v (K := R).
+   Definitions only; proofs are in JacobianProofs.v (algebra, any commutative ring).  The real-analysis instance (K := R, Coquelicot
+   is_derive for exp/sin/cos/tanh/sigmoid) is a stretch goal that is NOT built: the function rules `dfn` are taken as the dual extension.
 
    What the code does (Impl, `jac_sym` / `jac_impl`):
      1. f_i := right-hand side of the i-th differential equation with every algebraic intermediate (non-DE variable,
@@ -332,18 +333,33 @@ Definition mkq (num : Z) (den : positive) : Qc := Q2Qc (num # den).
 Definition Qc_sign (v : Qc) : Qc :=
   if Qle_bool (this v) 0%Q then (if Qle_bool 0%Q (this v) then 0%Qc else (- (1))%Qc) else 1%Qc.
 Definition Qc_abs (v : Qc) : Qc := if Qle_bool 0%Q (this v) then v else (- v)%Qc.
-(* identity, absv and sign are computable; the transcendental functions are not: models with them are outside the
-   exact correspondence stream (`polyb`/`execb` guard) and are covered by JacobianReal.v *)
+(* identity, absv and sign are computed exactly.  The transcendental functions cannot be evaluated in Qc: in the exact
+   correspondence stream the harness replaces the functions `sigmoid, exp, sin, cos, tanh` of the generated modules (run
+   function and Jacobian function alike) by the polynomial stand-ins below, so that what is compared exactly is the structure
+   the code emits (which rule is applied to which call, chain rule, placement); that the rules are the derivatives of the
+   real functions is not proved in this development (stretch goal; supported only by the non-deciding finite-difference stream).  The stand-ins of sin/tanh are odd and the one of cos is even (sympy rewrites
+   sin(-u) -> -sin(u), cos(-u) -> cos(u) when it builds the expression); exp is not used in that stream (sympy merges
+   exp(u)*exp(v) into exp(u+v), which no polynomial satisfies). *)
 Definition Qc_fn (f : fn) (v : Qc) : Qc :=
-  match f with FId => v | FAbs => Qc_abs v | FSign => Qc_sign v | _ => 0%Qc end.
+  match f with
+  | FId => v
+  | FAbs => Qc_abs v
+  | FSign => Qc_sign v
+  | FSig => (v * v * mkq 1 4 + mkq 1 4)%Qc
+  | FExp => (v * v * mkq 1 2 + v + 1)%Qc
+  | FSin => (v * mkq 1 2)%Qc
+  | FCos => (1 - v * v * mkq 1 2)%Qc
+  | FTanh => (v * mkq 1 4)%Qc
+  end.
 Definition QcO : ops Qc := mkops Qc 0%Qc 1%Qc Qcplus Qcminus Qcmult Qcopp Qc_fn.
 
+(* everything is executable with the stand-ins (kept as a guard of the correspondence run) *)
 Fixpoint execb {K} (e : expr K) : bool :=
   match e with
   | Cst _ | At _ => true
   | Add a b | Sub a b | Mul a b => execb a && execb b
   | Neg a | PowN a _ => execb a
-  | Fn f a => match f with FId | FAbs | FSign => execb a | _ => false end
+  | Fn f a => execb a
   end.
 
 (* environment from association lists: variables, and for each delay symbol the vector hist(t - delay) *)
